@@ -697,7 +697,7 @@ def run(ctx):
     vtime.install()
     configs = [(ha, order, ini) for ha in (True, False) for order in ("host_first", "equipment_first", "simultaneous")
                for ini in ("ATTEMPT_ONLINE", "ONLINE", "HOST_OFFLINE", "EQUIPMENT_OFFLINE")]
-    reps = 6 if ctx.quick else 200
+    reps = 6 if ctx.quick else 150
     idx = 0
     from lib import sched
     inj = sched.YieldInjector(["/secsgem/"])     # the whole package
